@@ -18,7 +18,6 @@ Import ListNotations.
 Local Open Scope N_scope.
 
 Record pinput := mkPInput {
-  pi_ovf : bool;              (* the library was built with overflow checks (probed by the harness) *)
   pi_mod : list mev;          (* the byte string read as a core module *)
   pi_comp : list cev }.       (* the byte string read as a component *)
 
@@ -38,9 +37,9 @@ Definition outcome_eqb (a b : outcome) : bool :=
 Definition predicts (p o : outcome) : bool :=
   match p with OUnmodelled => true | _ => outcome_eqb p o end.
 
-Definition pred_mod (c : pcase) := parse_glue (pi_ovf (pc_in c)) false (pi_mod (pc_in c)).
-Definition pred_mod_mm (c : pcase) := parse_glue (pi_ovf (pc_in c)) true (pi_mod (pc_in c)).
-Definition pred_comp (c : pcase) := parse_comp_glue (pi_ovf (pc_in c)) false (pi_comp (pc_in c)).
+Definition pred_mod (c : pcase) := parse_glue false (pi_mod (pc_in c)).
+Definition pred_mod_mm (c : pcase) := parse_glue true (pi_mod (pc_in c)).
+Definition pred_comp (c : pcase) := parse_comp_glue false (pi_comp (pc_in c)).
 
 Definition agree (c : pcase) : bool :=
   predicts (pred_mod c) (pc_obs_mod c) && predicts (pred_mod_mm c) (pc_obs_mod_mm c) && predicts (pred_comp c) (pc_obs_comp c).
